@@ -146,6 +146,21 @@ func VerifHarness_C16_Step() {
 		sp := spans[vsymChoice("span", len(spans))]
 		d, err := parseStep(lokiapi.OptPrometheusDuration{}, t0, t0.Add(sp.span))
 		vsymAssert(err == nil && d == sp.want, "the default step is max(1s, floor((end-start)/250) seconds)")
+		// bounds with sub-second parts: the step depends on end-start only
+		fr := []struct {
+			startNs, endNs int64
+			want           time.Duration
+		}{
+			{900000000, 500*1e9 + 100000000, time.Second},         // 499.2s
+			{999000000, 500 * 1e9, time.Second},                   // 499.001s
+			{100000000, 500*1e9 + 900000000, 2 * time.Second},     // 500.8s
+			{500000000, 750*1e9 + 400000000, 2 * time.Second},     // 749.9s
+			{1, 250 * 1e9, time.Second},                           // 249.999999999s
+		}
+		f := fr[vsymChoice("fraction", len(fr))]
+		base := int64(1700000000) * 1e9
+		d, err = parseStep(lokiapi.OptPrometheusDuration{}, vsymTimeNs(base+f.startNs), vsymTimeNs(base+f.endNs))
+		vsymAssert(err == nil && d == f.want, "the default step depends on end-start, sub-second parts included")
 	}
 	vsymReach("C16_step")
 }
